@@ -1,5 +1,6 @@
 import LyModel.Bridge.Utf8Check
 import LyModel.Bridge.Utf8Get
+import LyModel.Bridge.Utf8Len
 import LyModel.Props.C03
 /-!
 # C03 — `ly_checkutf8` as TRANSLATED from ly_common.c (`tools/c2lean.py`, regenerated on every run)
@@ -36,5 +37,13 @@ theorem gen_validators_agree_partial (inp : Bytes) (in_len l0 : UInt64) (c0 : UI
 /-- **F22 on the translated code**: `EF BF BE` passes the translated `ly_checkutf8` and is refused by the translated `ly_getutf8`. -/
 theorem gen_validators_agree_fails :
     (Fn.ly_checkutf8 [0xEF, 0xBF, 0xBE] 3 0).ret = 0 ∧ (Fn.ly_getutf8 [0xEF, 0xBF, 0xBE] 0 none).ret = 3 := by decide +kernel
+
+/-- **The translated `ly_utf8len` is the character count of the string store** (`Val.storeStr` checks the `length` restriction
+    against `Val.utf8Len (s.length + 1) s`): for every byte string, with `bytes = strlen`. -/
+theorem gen_utf8len_is_model (s : Bytes) (hs : s.length + 6 < 2 ^ 63) :
+    Fn.ly_utf8len s (UInt64.ofNat s.length) = UInt64.ofNat (Val.utf8Len (s.length + 1) s) :=
+  Bridge.Utf8.utf8len_eq s hs
+
+example : Fn.ly_utf8len [0x61, 0xE2, 0x82, 0xAC, 0xC3, 0xA9] 6 = 3 ∧ Fn.ly_utf8len [0x61, 0x00, 0x62] 3 = 1 := by decide +kernel
 
 end LyModel.Props.C03Fn
